@@ -11,6 +11,7 @@ package main
 import (
 	"fmt"
 	"go/ast"
+	"go/parser"
 	"go/token"
 	"strconv"
 	"strings"
@@ -391,6 +392,7 @@ type fnExtra struct {
 }
 
 type fnGen struct {
+	tparamInst map[string]string // directive tparam:F.T=<Go type>: the type parameter T of F instantiated by hand (union constraints)
 	objArgs   bool // directive objargs: emit <f>_objargs after every function
 	externs   map[string]bool // "pkg.F": calls are translated as calls of a function argument
 	file      *ast.File
@@ -738,6 +740,14 @@ func (c *fnCtx) typeParams(fl *ast.FieldList) {
 					continue
 				}
 			}
+			if c.fn != nil && c.g != nil && c.g.tparamInst != nil {
+				if gt, ok := c.g.tparamInst[c.fn.name+"."+nm.Name]; ok {
+					if e, err := parser.ParseExpr(gt); err == nil {
+						c.elemT[nm.Name] = c.goType(e)
+						continue
+					}
+				}
+			}
 			c.lostAt(f, "type constraint %s", src(f.Type))
 		}
 	}
@@ -788,6 +798,17 @@ func fnGenerate(f *ast.File, specs []string) (string, []string) {
 	for _, sp := range specs {
 		if strings.HasPrefix(sp, "extern:") {
 			g.externs[strings.TrimPrefix(sp, "extern:")] = true
+			continue
+		}
+		if strings.HasPrefix(sp, "tparam:") {
+			// tparam:Length.T=string -- the type parameter T of Length, whose constraint is a union the
+			// translator cannot keep abstract, is instantiated with this Go type in this entry
+			if k, v, ok := strings.Cut(strings.TrimPrefix(sp, "tparam:"), "="); ok {
+				if g.tparamInst == nil {
+					g.tparamInst = map[string]string{}
+				}
+				g.tparamInst[k] = v
+			}
 			continue
 		}
 		if strings.HasPrefix(sp, "monadic:") {
